@@ -429,3 +429,479 @@ Proof.
     destruct Hp as (-> & -> & -> & ->).
     wfin.
 Qed.
+
+(* ------------------------------------------------------------------ reader steps *)
+Lemma rcur_at : forall t p, rcur (r_at t p) = rcur t.
+Proof. reflexivity. Qed.
+
+Lemma post_fields : forall h, hW (post h) = hW h /\ hwpt (post h) = hwpt h /\ hrpt (post h) = hrpt h /\
+  hmem (post h) = hmem h /\ (sem_ok h -> sem_ok (post h)).
+Proof.
+  intros h. unfold post, sem_ok. destruct (hsem h) eqn:E; cbn [hW hwpt hrpt hmem hsem set_hsem]; repeat split; auto.
+  - intros; lia.
+  - rewrite E; auto.
+Qed.
+
+Definition rconcl (h : shared) (RP : Z) (q : list chunk) (win pend : Z) (r : sres rthread) : Prop :=
+  let h' := s_sh r in
+  let t' := s_t r in
+  exists RP' q',
+    match s_gh r with
+    | GCons x => exists c, q = c :: q' /\ gmatch x c /\ RP' = RP + cw (zlen c)
+    | GNone => q' = q /\ RP' = RP
+    | GPub _ => False
+    end /\
+    Core (hW h') (hwpt h') (hrpt h') (hmem h') RP' q' win pend (r_kill t') /\
+    rinv (hW h') RP' q' pend t' /\
+    same_on (hmem h) (hmem h') (4 * hW h) (4 * (RP + used q)) (4 * (RP + used q + win)) /\
+    hW h' = hW h /\ hwpt h' = hwpt h /\ sem_ok h' /\ s_err r = false.
+
+Lemma r_nomem : forall h RP q win pend h' t' lab ret,
+  Core (hW h) (hwpt h) (hrpt h) (hmem h) RP q win pend (r_kill t') ->
+  hW h' = hW h -> hwpt h' = hwpt h -> hrpt h' = hrpt h -> hmem h' = hmem h -> sem_ok h' ->
+  rinv (hW h) RP q pend t' ->
+  rconcl h RP q win pend (mkres h' t' lab ret GNone false).
+Proof.
+  intros h RP q win pend h' t' lab ret HC E1 E2 E3 E4 Hs Hr.
+  exists RP, q. cbn [s_sh s_t s_gh s_err]. rewrite E1, E2, E3, E4.
+  split; [split; reflexivity|]. split; [assumption|]. split; [assumption|].
+  split; [apply same_on_refl|]. auto.
+Qed.
+
+(* the part of rinv that a return to RCall needs *)
+Lemma rinv_ret : forall W RP q pend t, rinv W RP q pend t -> rinv W RP q pend (r_ret t).
+Proof.
+  intros W RP q pend t (Hh & _ & _). unfold rinv; cbn [r_ret r_pc r_have r_buf in_rc].
+  repeat split; auto. discriminate.
+Qed.
+
+Lemma head_of_q : forall m W RP c q', 0 < W -> chunks_at m W RP (c :: q') ->
+  ldw m (RP mod W) = zlen c /\ ldw m ((RP + 1) mod W) = RB_CHUNK_MAGIC /\
+  (forall k, 0 <= k < zlen c -> ld m ((4 * (RP + 2) + k) mod (4 * W)) = nth (Z.to_nat k) c 0) /\
+  chunks_at m W (RP + cw (zlen c)) q'.
+Proof. intros m W RP c q' HW H. cbn [chunks_at] in H. exact H. Qed.
+
+Ltac rinv_at := unfold rinv; cbn [r_at r_pc r_have r_buf r_size r_acc in_rc]; rewrite ?rcur_at;
+  (split; [assumption|]); (split; [intros; discriminate|]).
+Ltac rgo_tac := apply r_nomem; auto; rinv_at.
+Ltac rfail_tac :=
+  match goal with H : r_fail ?h ?t _ = Some ?r |- _ =>
+    unfold r_fail in H; destruct (hsem h);
+    [ unfold rgo in H; inversion H; subst r; clear H; rgo_tac; exact I
+    | unfold rreturn in H; inversion H; subst r; clear H; apply r_nomem; auto; apply rinv_ret; assumption ] end.
+
+Lemma rstep_core : forall h t r RP q win pend,
+  rstep h t = Some r ->
+  Core (hW h) (hwpt h) (hrpt h) (hmem h) RP q win pend (r_kill t) ->
+  rinv (hW h) RP q pend t ->
+  (0 < pend -> wr_alloc (hmem h) (hW h) (RP + used q)) ->
+  sem_ok h ->
+  rconcl h RP q win pend r.
+Proof.
+  intros h t r RP q win pend H HC Hri Hpal Hsem.
+  pose proof HC as HC0.
+  destruct HC as [HW H32 Hr Hw Hcap Hpend Hq].
+  pose proof Hri as Hri0.
+  destruct Hri as (Hhave & Hrd & Hpc).
+  pose proof (used_nonneg q) as Huq.
+  pose proof (post_fields h) as (Pw & Pwp & Prp & Pm & Psem).
+  set (W := hW h) in *. set (m := hmem h) in *.
+  (* pointers differ as soon as something is in the ring or pending *)
+  assert (Hdiff : 0 < used q + pend -> RP mod W <> hwpt h).
+  { intros Hpos E. rewrite Hw in E. symmetry in E.
+    replace (RP + used q + pend) with (RP + (used q + pend)) in E by lia.
+    apply mod_neq_window in E; lia. }
+  assert (Hsame : q = [] -> pend = 0 -> RP mod W = hwpt h).
+  { intros -> ->. rewrite Hw. cbn [used]. f_equal. lia. }
+  assert (Hqpos : q <> [] -> 2 <= used q).
+  { destruct q as [|c q0]; [congruence|]. intros _. apply used_cons_ge2. }
+  (* the marker of the chunk at RP is MAGIC exactly when a published chunk is there *)
+  assert (Hmagic : r_kill t = false -> (q <> [] \/ 0 < pend) ->
+                   (ldw m ((RP + 1) mod W) =? RB_CHUNK_MAGIC) = true <-> q <> []).
+  { intros Hk Hor. split.
+    - intros E Hq0. subst q. destruct Hor as [Hor|Hor]; [congruence|].
+      specialize (Hpal Hor). unfold wr_alloc in Hpal. cbn [used] in Hpal. rewrite Z.add_0_r in Hpal.
+      fold m W in Hpal. pose proof conc_consts_ok as (Hne & _). lia.
+    - intros Hne. destruct q as [|c q0]; [congruence|]. unfold q_in_mem in Hq. rewrite Hk in Hq.
+      apply head_of_q in Hq; [|assumption]. destruct Hq as (_ & Hm & _). lia. }
+  unfold rstep in H. fold W m in H.
+  destruct (r_pc t) eqn:Epc; unfold r_kill in *; rewrite Epc in *.
+  - (* RStart *)
+    unfold rgo in H. inversion H; subst r; clear H. rgo_tac. exact I.
+  - (* RCall *)
+    destruct (r_prog t) as [|c0 pr] eqn:Ep; [discriminate|].
+    assert (Hcur : rcur t = c0) by (unfold rcur; rewrite Ep; reflexivity).
+    assert (Hwait : forall c blk, hsem h = Some c -> act_wait h t c blk = Some r -> rconcl h RP q win pend r).
+    { intros c blk Es Ha. unfold act_wait in Ha. destruct (0 <? c) eqn:Ec.
+      - inversion Ha; subst r; clear Ha. apply r_nomem; cbn [hW hwpt hrpt hmem set_hsem]; auto.
+        + unfold sem_ok; cbn [hsem set_hsem]. lia.
+        + rinv_at. exact I.
+      - destruct blk; [discriminate|]. unfold rreturn in Ha. inversion Ha; subst r; clear Ha.
+        apply r_nomem; auto. apply rinv_ret; assumption. }
+    assert (Hrd1 : act_rd_rpt h t = Some r -> rconcl h RP q win pend r).
+    { intros Ha. unfold act_rd_rpt, rgo in Ha. inversion Ha; subst r; clear Ha. rgo_tac. exact Hr. }
+    destruct c0 as [n blk|blk|].
+    + destruct (hsem h) as [c|] eqn:Es; [eapply Hwait; eauto | apply Hrd1; assumption].
+    + destruct (hsem h) as [c|] eqn:Es; [eapply Hwait; eauto | apply Hrd1; assumption].
+    + unfold act_rc_rd_rpt, rgo in H. inversion H; subst r; clear H.
+      apply r_nomem; auto. unfold rinv; cbn [r_at r_pc r_have r_buf r_size r_acc in_rc]; rewrite ?rcur_at.
+      split; [exact Hhave|]. split; [rewrite Hcur; cbn [is_read]; intros; discriminate|]. exact Hr.
+  - (* RRdRpt *)
+    unfold act_rd_rpt, rgo in H. inversion H; subst r; clear H. rgo_tac. exact Hr.
+  - (* RRdWpt *)
+    subst rp. destruct (RP mod W =? hwpt h) eqn:E.
+    + rfail_tac.
+    + unfold rgo in H. inversion H; subst r; clear H. rgo_tac. split; [reflexivity|].
+      destruct q as [|c q0]; [|left; discriminate]. right.
+      destruct (Z_lt_dec 0 pend); [assumption|]. exfalso. assert (pend = 0) by lia. specialize (Hsame eq_refl H). lia.
+  - (* RRdMagic *)
+    destruct Hpc as (-> & Hor). rewrite succ_mod in H by assumption.
+    specialize (Hmagic eq_refl Hor).
+    destruct (ldw m ((RP + 1) mod W) =? RB_CHUNK_MAGIC) eqn:E.
+    + unfold rgo in H. inversion H; subst r; clear H. rgo_tac. split; [reflexivity|]. apply Hmagic; reflexivity.
+    + rfail_tac.
+  - (* RFailPost *)
+    unfold rreturn in H. inversion H; subst r; clear H. apply r_nomem; auto. apply rinv_ret; assumption.
+  - (* RRdSize *)
+    destruct Hpc as (-> & Hne). destruct q as [|c q0]; [congruence|].
+    unfold q_in_mem in Hq. apply head_of_q in Hq; [|assumption]. destruct Hq as (Hsz & Hmg & Hby & Htl).
+    fold m in Hsz. rewrite Hsz in H. rewrite inr_mod in H by assumption. cbn [negb] in H.
+    pose proof (zlen_nonneg c) as Hzc.
+    destruct (match rcur t with RRead n _ => n <? zlen c | _ => false end).
+    { destruct (hsem h); inversion H; subst r; clear H.
+      - rgo_tac. exact I.
+      - apply r_nomem; auto. apply rinv_ret; assumption. }
+    destruct (zlen c <=? 0) eqn:Ez.
+    { assert (c = []) by (apply zlen_zero_nil; lia). subst c.
+      unfold copy_done in H. destruct (is_read (rcur t)) eqn:Eread; inversion H; subst r; clear H.
+      - apply r_nomem; auto. unfold rinv; cbn [r_pc r_have r_buf in_rc rcur r_prog].
+        split; [intros _; exists [], q0; auto|]. split; [auto|exact I].
+      - apply r_nomem; auto. unfold rinv; cbn [r_ret r_pc r_have r_buf in_rc].
+        split; [intros _; exists [], q0; auto|]. split; [intros; discriminate|exact I]. }
+    inversion H; subst r; clear H. apply r_nomem; auto.
+    unfold rinv; cbn [r_pc r_have r_buf r_size r_acc in_rc].
+    split; [intros; discriminate|]. split; [intros; discriminate|]. split; [reflexivity|].
+    exists c, q0. repeat split; auto; lia.
+  - (* RNoBufPost *)
+    unfold rreturn in H. inversion H; subst r; clear H. apply r_nomem; auto. apply rinv_ret; assumption.
+  - (* RCopy *)
+    destruct Hpc as (-> & c & q0 & -> & Hsize & Hk & Hacc & Hhv).
+    unfold q_in_mem in Hq. apply head_of_q in Hq; [|assumption]. destruct Hq as (Hsz & Hmg & Hby & Htl).
+    rewrite data_byte_addr in H by assumption. fold m in Hby. rewrite Hby in H by assumption.
+    rewrite (data_byte_in_map W RP k (zlen c)) in H; try lia.
+    2:{ assert (2 <= cw (zlen c)) by (apply cw_ge2; lia). pose proof (cw_payload (zlen c) ltac:(lia)).
+        cbn [used] in Hcap. pose proof (used_nonneg q0). lia. }
+    cbn [negb] in H. rewrite Hsize in H.
+    assert (Hacc' : rev (nth (Z.to_nat k) c 0 :: r_acc t) = firstn (Z.to_nat (k + 1)) c).
+    { cbn [rev]. rewrite Hacc. replace (Z.to_nat (k + 1)) with (S (Z.to_nat k)) by lia.
+      symmetry. apply firstn_succ_nth. unfold zlen in Hk. lia. }
+    destruct (k + 1 <? zlen c) eqn:Ek.
+    + inversion H; subst r; clear H. apply r_nomem; auto.
+      unfold rinv; cbn [r_pc r_have r_buf r_size r_acc in_rc].
+      split; [intros; discriminate|]. split; [intros; discriminate|]. split; [reflexivity|].
+      exists c, q0. repeat split; auto; lia.
+    + assert (Hall : rev (nth (Z.to_nat k) c 0 :: r_acc t) = c).
+      { rewrite Hacc'. apply firstn_all2. unfold zlen in *. lia. }
+      rewrite Hall in H.
+      unfold copy_done in H. destruct (is_read (rcur t)) eqn:Eread; inversion H; subst r; clear H.
+      * apply r_nomem; auto. unfold rinv; cbn [r_pc r_have r_buf in_rc rcur r_prog].
+        split; [intros _; exists c, q0; auto|]. split; [auto|exact I].
+      * apply r_nomem; auto. unfold rinv; cbn [r_ret r_pc r_have r_buf in_rc].
+        split; [intros _; exists c, q0; auto|]. split; [intros; discriminate|exact I].
+  - (* RcRdRpt *)
+    unfold act_rc_rd_rpt, rgo in H. inversion H; subst r; clear H.
+    apply r_nomem; auto. unfold rinv; cbn [r_at r_pc r_have r_buf r_size r_acc in_rc]; rewrite ?rcur_at.
+    split; [exact Hhave|]. split; [intros _; apply Hrd; reflexivity|]. exact Hr.
+  - (* RcRdWpt *)
+    subst old. destruct (RP mod W =? hwpt h) eqn:E.
+    + unfold rc_fail in H. destruct (is_read (rcur t)) eqn:Eread.
+      * exfalso. specialize (Hrd eq_refl eq_refl). destruct (Hhave Hrd) as (c & q0 & -> & _).
+        apply Hdiff; [|lia]. pose proof (used_cons_ge2 c q0). lia.
+      * unfold rreturn in H. inversion H; subst r; clear H. apply r_nomem; auto. apply rinv_ret; assumption.
+    + unfold rgo in H. inversion H; subst r; clear H.
+      apply r_nomem; auto. unfold rinv; cbn [r_at r_pc r_have r_buf r_size r_acc in_rc]; rewrite ?rcur_at.
+      split; [exact Hhave|]. split; [intros _; apply Hrd; reflexivity|]. split; [reflexivity|].
+      destruct q as [|c q0]; [|left; discriminate]. right.
+      destruct (Z_lt_dec 0 pend); [assumption|]. exfalso. assert (pend = 0) by lia. specialize (Hsame eq_refl H). lia.
+  - (* RcRdMagic *)
+    destruct Hpc as (-> & Hor). rewrite succ_mod in H by assumption.
+    specialize (Hmagic eq_refl Hor).
+    destruct (ldw m ((RP + 1) mod W) =? RB_CHUNK_MAGIC) eqn:E.
+    + unfold rgo in H. inversion H; subst r; clear H.
+      apply r_nomem; auto. unfold rinv; cbn [r_at r_pc r_have r_buf r_size r_acc in_rc]; rewrite ?rcur_at.
+      split; [exact Hhave|]. split; [intros _; apply Hrd; reflexivity|]. split; [reflexivity|]. apply Hmagic; reflexivity.
+    + unfold rc_fail in H. destruct (is_read (rcur t)) eqn:Eread.
+      * exfalso. specialize (Hrd eq_refl eq_refl). destruct (Hhave Hrd) as (c & q0 & -> & _).
+        assert (c :: q0 <> []) by discriminate. apply Hmagic in H0. congruence.
+      * unfold rreturn in H. inversion H; subst r; clear H. apply r_nomem; auto. apply rinv_ret; assumption.
+  - (* RcRdSize1 *)
+    destruct Hpc as (-> & Hne). rewrite inr_mod in H by assumption. cbn [negb] in H.
+    inversion H; subst r; clear H.
+    apply r_nomem; auto. unfold rinv; cbn [r_at r_pc r_have r_buf r_size r_acc in_rc]; rewrite ?rcur_at.
+    split; [exact Hhave|]. split; [intros _; apply Hrd; reflexivity|]. auto.
+  - (* RcRdSize2 *)
+    destruct Hpc as (-> & Hne). destruct q as [|c q0]; [congruence|].
+    unfold q_in_mem in Hq. apply head_of_q in Hq; [|assumption]. destruct Hq as (Hsz & Hmg & Hby & Htl).
+    fold m in Hsz. rewrite Hsz in H.
+    unfold rgo in H. inversion H; subst r; clear H.
+    apply r_nomem; auto. unfold rinv; cbn [r_at r_pc r_have r_buf r_size r_acc in_rc]; rewrite ?rcur_at.
+    split; [exact Hhave|]. split; [intros _; apply Hrd; reflexivity|]. split; [reflexivity|].
+    exists c, q0. split; [reflexivity|].
+    rewrite chunk_step_eq by (try apply Z.mod_pos_bound; try apply zlen_nonneg; lia).
+    apply Zplus_mod_idemp_l.
+  - (* RcSt0 *)
+    destruct Hpc as (-> & c & q0 & -> & ->).
+    unfold q_in_mem in Hq. apply head_of_q in Hq; [|assumption]. destruct Hq as (Hsz & Hmg & Hby & Htl).
+    rewrite inr_mod in H by assumption. cbn [negb] in H.
+    inversion H; subst r; clear H.
+    pose proof (cw_ge2 (zlen c) (zlen_nonneg c)) as Hc2. pose proof (used_nonneg q0) as Hu0. cbn [used] in *.
+    exists RP, (c :: q0). cbn [s_sh s_t s_gh s_err hW hwpt hrpt hmem set_mem]. fold W m.
+    set (m' := stw m (RP mod W) 0).
+    split; [split; reflexivity|].
+    split.
+    { unfold r_kill; cbn [r_at r_pc]. constructor; try assumption. unfold q_in_mem.
+      apply chunks_at_frame with (m := m); try assumption.
+      apply same_on_stw; lia. }
+    split.
+    { unfold rinv; cbn [r_at r_pc r_have r_buf r_size r_acc in_rc]; rewrite ?rcur_at.
+      split; [exact Hhave|]. split; [intros _; apply Hrd; reflexivity|]. split; [reflexivity|].
+      exists c, q0. auto. }
+    split; [cbn [used]; apply same_on_stw; lia|]. auto.
+  - (* RcStDead *)
+    destruct Hpc as (-> & c & q0 & -> & ->).
+    unfold q_in_mem in Hq. rewrite succ_mod in H by assumption.
+    inversion H; subst r; clear H.
+    pose proof (cw_ge2 (zlen c) (zlen_nonneg c)) as Hc2. pose proof (used_nonneg q0) as Hu0. cbn [used] in *.
+    exists RP, (c :: q0). cbn [s_sh s_t s_gh s_err hW hwpt hrpt hmem set_mem]. fold W m.
+    split; [split; reflexivity|].
+    split.
+    { unfold r_kill; cbn [r_at r_pc]. constructor; try assumption. unfold q_in_mem.
+      apply chunks_at_frame with (m := m); try assumption.
+      apply same_on_stw; lia. }
+    split.
+    { unfold rinv; cbn [r_at r_pc r_have r_buf r_size r_acc in_rc]; rewrite ?rcur_at.
+      split; [exact Hhave|]. split; [intros _; apply Hrd; reflexivity|]. split; [reflexivity|].
+      exists c, q0. auto. }
+    split; [cbn [used]; apply same_on_stw; lia|]. auto.
+  - (* RcStRpt *)
+    destruct Hpc as (-> & c & q0 & -> & ->).
+    unfold q_in_mem in Hq.
+    inversion H; subst r; clear H.
+    pose proof (cw_ge2 (zlen c) (zlen_nonneg c)) as Hc2. pose proof (used_nonneg q0) as Hu0. cbn [used] in *.
+    exists (RP + cw (zlen c)), q0. cbn [s_sh s_t s_gh s_err hW hwpt hrpt hmem set_rpt]. fold W m.
+    split.
+    { exists c. split; [reflexivity|]. split; [|reflexivity].
+      unfold gmatch. destruct (r_have t) eqn:Eh; [|exact I].
+      destruct (Hhave eq_refl) as (c' & q' & Hqq & Hb). inversion Hqq; subst. reflexivity. }
+    split.
+    { unfold r_kill; cbn [r_pc]. constructor; try assumption; try lia.
+      - rewrite Hw. f_equal. lia. }
+    split.
+    { unfold rinv; cbn [r_pc r_have r_buf in_rc]. split; [intros; discriminate|]. split; [intros; discriminate|exact I]. }
+    split; [replace (RP + (cw (zlen c) + used q0)) with (RP + cw (zlen c) + used q0) by lia; apply same_on_refl|]. auto.
+Qed.
+
+(* ------------------------------------------------------------------ the two threads together *)
+Lemma winv_ext : forall h h' L t, hW h' = hW h -> hwpt h' = hwpt h -> hmem h' = hmem h -> winv h L t -> winv h' L t.
+Proof. intros h h' L t E1 E2 E3 H. unfold winv in *. rewrite E1, E2, E3. exact H. Qed.
+
+Lemma winv_frame' : forall h m' L t, 0 < hW h ->
+  winv h L t -> same_on (hmem h) m' (4 * hW h) (4 * L) (4 * (L + w_win t)) -> winv (set_mem h m') L t.
+Proof.
+  intros h m' L t HW H Hs.
+  pose proof (zlen_nonneg (wdata t)) as Hl.
+  pose proof (cw_ge2 _ Hl) as Hc. pose proof (cw_payload _ Hl) as Hp.
+  destruct (Z.eq_dec (w_win t) 0) as [E|E].
+  - unfold winv in *. unfold w_win in E. cbn [hW hmem hwpt set_mem].
+    destruct (w_pc t); try exact H; lia.
+  - apply winv_frame; auto; unfold w_win in *; destruct (w_pc t); try congruence; lia.
+Qed.
+
+Lemma rinv_mono : forall W RP q pend t q' pend', rinv W RP q pend t ->
+  (exists x, q' = q ++ x) -> (0 < pend -> 0 < pend' \/ q' <> []) -> rinv W RP q' pend' t.
+Proof.
+  intros W RP q pend t q' pend' (Hh & Hrd & Hpc) (x & ->) Hp.
+  assert (Hne : q <> [] -> q ++ x <> []) by (destruct q; [congruence|discriminate]).
+  assert (Hor : q <> [] \/ 0 < pend -> q ++ x <> [] \/ 0 < pend').
+  { intros [Hq|Hq]; [left; auto|]. destruct (Hp Hq); auto. }
+  unfold rinv. split; [|split; [exact Hrd|]].
+  - intros E. destruct (Hh E) as (c & q0 & -> & Hb). exists c, (q0 ++ x). auto.
+  - destruct (r_pc t); try exact Hpc.
+    + destruct Hpc; auto.
+    + destruct Hpc; auto.
+    + destruct Hpc as (E1 & c & q0 & -> & Hrest). split; [exact E1|]. exists c, (q0 ++ x). split; [reflexivity|exact Hrest].
+    + destruct Hpc; auto.
+    + destruct Hpc; auto.
+    + destruct Hpc; auto.
+    + destruct Hpc as (E1 & c & q0 & -> & Hrest). split; [exact E1|]. exists c, (q0 ++ x). auto.
+    + destruct Hpc as (E1 & c & q0 & -> & Hrest). split; [exact E1|]. exists c, (q0 ++ x). auto.
+    + destruct Hpc as (E1 & c & q0 & -> & Hrest). split; [exact E1|]. exists c, (q0 ++ x). auto.
+Qed.
+
+Lemma pend_alloc : forall h L t, winv h L t -> 0 < w_pend t -> wr_alloc (hmem h) (hW h) L.
+Proof.
+  intros h L t H Hp. unfold winv, w_pend in *. destruct (w_pc t); try lia. destruct H as (_ & Ha & _). exact Ha.
+Qed.
+
+Lemma mkInv : forall s RP q pre,
+  g_pub s = pre ++ q -> Forall2 gmatch (g_got s) pre ->
+  Core (hW (g_sh s)) (hwpt (g_sh s)) (hrpt (g_sh s)) (hmem (g_sh s)) RP q (w_win (g_w s)) (w_pend (g_w s)) (r_kill (g_r s)) ->
+  winv (g_sh s) (RP + used q) (g_w s) -> rinv (hW (g_sh s)) RP q (w_pend (g_w s)) (g_r s) ->
+  sem_ok (g_sh s) -> g_err s = false -> Inv s.
+Proof.
+  intros s RP q pre H1 H2 H3 H4 H5 H6 H7. exists RP, q, pre.
+  split; [exact H1|]. split; [exact H2|]. split; [exact H3|]. split; [exact H4|]. split; [exact H5|]. split; assumption.
+Qed.
+
+Theorem inv_step : forall t s s' o, Inv s -> step t s = Some (s', o) -> Inv s'.
+Proof.
+  intros t s s' o (RP & q & pre & Hpub & Hgot & HC & Hwi & Hri & Hsem & Herr) Hst.
+  unfold step in Hst. destruct t.
+  - destruct (wstep (g_sh s) (g_w s)) as [r|] eqn:Ew; [|discriminate].
+    pose proof (wstep_core _ _ _ _ _ _ Ew HC Hwi Hsem) as (HC' & Hwi' & Hsem' & Herr' & EW & Hng & Hpd).
+    assert (Hgh : s_gh r = GNone \/ exists d, s_gh r = GPub d).
+    { destruct (s_gh r); [left; reflexivity | right; eexists; reflexivity | exfalso; eapply Hng; reflexivity]. }
+    assert (Hri' : rinv (hW (s_sh r)) RP (q_after (s_gh r) q) (w_pend (s_t r)) (g_r s)).
+    { rewrite EW. eapply rinv_mono; [exact Hri | | exact Hpd].
+      destruct Hgh as [->|(d & ->)]; cbn [q_after]; [exists []; symmetry; apply app_nil_r | exists [d]; reflexivity]. }
+    destruct Hgh as [Eg|(d & Eg)]; rewrite Eg in *; cbn [apply_ghost q_after] in *;
+      inversion Hst; subst s'; clear Hst.
+    + apply mkInv with (RP := RP) (q := q) (pre := pre); cbn [g_sh g_w g_r g_pub g_got g_err]; auto.
+      rewrite Herr, Herr'; reflexivity.
+    + apply mkInv with (RP := RP) (q := q ++ [d]) (pre := pre); cbn [g_sh g_w g_r g_pub g_got g_err]; auto.
+      * rewrite Hpub, app_assoc; reflexivity.
+      * rewrite Herr, Herr'; reflexivity.
+  - destruct (rstep (g_sh s) (g_r s)) as [r|] eqn:Er; [|discriminate].
+    assert (Hpal : 0 < w_pend (g_w s) -> wr_alloc (hmem (g_sh s)) (hW (g_sh s)) (RP + used q))
+      by (apply pend_alloc; assumption).
+    pose proof (rstep_core _ _ _ _ _ _ _ Er HC Hri Hpal Hsem) as
+        (RP' & q' & Hg & HC' & Hri' & Hs & EW & Ewp & Hsem' & Herr').
+    assert (HL : RP' + used q' = RP + used q).
+    { destruct (s_gh r); try contradiction.
+      - destruct Hg as (-> & ->). reflexivity.
+      - destruct Hg as (c & -> & _ & ->). cbn [used]. lia. }
+    assert (Hwi' : winv (s_sh r) (RP' + used q') (g_w s)).
+    { rewrite HL. apply winv_ext with (h := set_mem (g_sh s) (hmem (s_sh r))); auto.
+      apply winv_frame'; [destruct HC; assumption | assumption |].
+      replace (RP + used q + w_win (g_w s)) with (RP + used q + w_win (g_w s)) in Hs by lia.
+      replace (4 * (RP + used q + w_win (g_w s))) with (4 * (RP + used q + w_win (g_w s))) by lia.
+      exact Hs. }
+    destruct (s_gh r) as [|d|x] eqn:Eg; try contradiction; cbn [apply_ghost] in *;
+      inversion Hst; subst s'; clear Hst.
+    + destruct Hg as (-> & ->).
+      apply mkInv with (RP := RP) (q := q) (pre := pre); cbn [g_sh g_w g_r g_pub g_got g_err]; auto;
+        try (rewrite Herr, Herr'; reflexivity).
+    + destruct Hg as (c & -> & Hm & ->).
+      apply mkInv with (RP := RP + cw (zlen c)) (q := q') (pre := pre ++ [c]); cbn [g_sh g_w g_r g_pub g_got g_err]; auto;
+        try (rewrite Herr, Herr'; reflexivity).
+      * rewrite Hpub, <- app_assoc; reflexivity.
+      * apply Forall2_app; [assumption|]. constructor; [assumption|constructor].
+Qed.
+
+Theorem inv_exec : forall sched s, Inv s -> Inv (exec sched s).
+Proof.
+  induction sched as [|t sc IH]; intros s H; cbn [exec fold_left]; [exact H|].
+  apply IH. unfold step1. destruct (step t s) as [[s' o]|] eqn:E; [eapply inv_step; eauto | exact H].
+Qed.
+
+(* any ring whose pointers are equal (empty), whatever the memory holds *)
+Definition wf_ring (h : shared) : Prop :=
+  0 < hW h /\ 4 * hW h <= two32 /\ 0 <= hrpt h < hW h /\ hwpt h = hrpt h /\ sem_ok h.
+
+Lemma inv_start : forall h tw tr, wf_ring h -> w_idle tw = true -> r_idle tr = true -> r_have tr = false ->
+  Inv {| g_sh := h; g_w := tw; g_r := tr; g_pub := []; g_got := []; g_err := false |}.
+Proof.
+  intros h tw tr (HW & H32 & Hr & Hw & Hs) Hwi Hri Hh.
+  exists (hrpt h), [], []. cbn [g_sh g_w g_r g_pub g_got g_err used app].
+  assert (Ew : w_win tw = 0 /\ w_pend tw = 0) by (unfold w_win, w_pend, w_idle in *; destruct (w_pc tw); try discriminate; auto).
+  destruct Ew as (-> & ->).
+  assert (Ek : r_kill tr = false) by (unfold r_kill, r_idle in *; destruct (r_pc tr); try discriminate; auto).
+  rewrite Ek.
+  split; [reflexivity|]. split; [constructor|].
+  split.
+  { constructor; cbn [used q_in_mem chunks_at]; try assumption; try lia; try exact I;
+      try (symmetry; apply Z.mod_small; assumption);
+      try (rewrite Hw, !Z.add_0_r; symmetry; apply Z.mod_small; assumption). }
+  split; [unfold winv, w_idle in *; destruct (w_pc tw); try discriminate; exact I|].
+  split.
+  { unfold rinv. split; [rewrite Hh; discriminate|]. unfold r_idle in Hri.
+    split; destruct (r_pc tr); try discriminate; auto. }
+  auto.
+Qed.
+
+Theorem inv_init : forall h pw pr, wf_ring h -> Inv (init h pw pr).
+Proof. intros. unfold init. apply inv_start; auto. Qed.
+
+(* new programs for idle threads: the harness' sequential prologue followed by the concurrent phase *)
+Theorem inv_load : forall s pw pr, Inv s -> quiescent s = true -> Inv (load s pw pr).
+Proof.
+  intros s pw pr (RP & q & pre & Hpub & Hgot & HC & Hwi & Hri & Hsem & Herr) Hq.
+  unfold quiescent in Hq. apply andb_prop in Hq. destruct Hq as (Hwq & Hrq).
+  assert (Ew : w_win (g_w s) = 0 /\ w_pend (g_w s) = 0)
+    by (unfold w_win, w_pend, w_idle in *; destruct (w_pc (g_w s)); try discriminate; auto).
+  destruct Ew as (Ew1 & Ew2). rewrite Ew1, Ew2 in *.
+  assert (Ek : r_kill (g_r s) = false) by (unfold r_kill, r_idle in *; destruct (r_pc (g_r s)); try discriminate; auto).
+  rewrite Ek in HC.
+  exists RP, q, pre. unfold load; cbn [g_sh g_w g_r g_pub g_got g_err].
+  split; [assumption|]. split; [assumption|].
+  split; [exact HC|]. split; [exact I|].
+  split; [|auto].
+  destruct Hri as (Hh & _ & _). unfold rinv; cbn [r_pc r_have r_buf in_rc].
+  split; [exact Hh|]. split; [intros; discriminate|exact I].
+Qed.
+
+(* ------------------------------------------------------------------ what the invariant gives *)
+Definition got_matches (got : list (option chunk)) (pub : list chunk) : Prop :=
+  exists pre rest, pub = pre ++ rest /\ Forall2 gmatch got pre.
+
+Lemma forall2_len : forall (A B : Type) (R : A -> B -> Prop) l l', Forall2 R l l' -> length l = length l'.
+Proof. induction 1; cbn [length]; congruence. Qed.
+
+Lemma inv_fifo : forall s, Inv s -> got_matches (g_got s) (g_pub s) /\ g_err s = false.
+Proof. intros s (RP & q & pre & Hpub & Hgot & _ & _ & _ & _ & Herr). split; [exists pre, q; auto|assumption]. Qed.
+
+(* when every consumed chunk was looked at (e.g. the reader only uses qb_rb_chunk_read), got IS a prefix of pub *)
+Lemma matches_all_some : forall got pre, Forall2 gmatch got pre -> Forall (fun g => g <> None) got -> got = map Some pre.
+Proof.
+  induction 1 as [|g p got pre Hm HF IH]; intros Hall; [reflexivity|].
+  inversion Hall; subst. cbn [map]. f_equal; [|apply IH; assumption].
+  destruct g; [cbn in Hm; congruence|congruence].
+Qed.
+
+(* an idle ring with equal pointers has delivered everything that was published *)
+Lemma inv_drained : forall s, Inv s -> quiescent s = true -> hrpt (g_sh s) = hwpt (g_sh s) ->
+  length (g_got s) = length (g_pub s) /\ Forall2 gmatch (g_got s) (g_pub s).
+Proof.
+  intros s (RP & q & pre & Hpub & Hgot & HC & _) Hq Heq.
+  unfold quiescent in Hq. apply andb_prop in Hq. destruct Hq as (Hwq & _).
+  assert (Ew : w_win (g_w s) = 0 /\ w_pend (g_w s) = 0)
+    by (unfold w_win, w_pend, w_idle in *; destruct (w_pc (g_w s)); try discriminate; auto).
+  destruct Ew as (Ew1 & Ew2). rewrite Ew1, Ew2 in *.
+  destruct HC as [HW H32 Hr Hw Hcap _ _].
+  assert (Hq0 : q = []).
+  { destruct q as [|c q0]; [reflexivity|]. exfalso.
+    pose proof (used_cons_ge2 c q0). rewrite Hw, Hr in Heq.
+    replace (RP + used (c :: q0) + 0) with (RP + used (c :: q0)) in Heq by lia.
+    symmetry in Heq. apply mod_neq_window in Heq; [contradiction | lia | cbn [used] in *; lia]. }
+  subst q. rewrite app_nil_r in Hpub. subst pre.
+  split; [eapply forall2_len; eauto | assumption].
+Qed.
+
+(* what the consumer holds after a successful peek (or a completed copy) is the oldest unconsumed chunk *)
+Lemma inv_peeked : forall s, Inv s -> r_have (g_r s) = true ->
+  nth_error (g_pub s) (length (g_got s)) = Some (r_buf (g_r s)).
+Proof.
+  intros s (RP & q & pre & Hpub & Hgot & _ & _ & (Hh & _) & _) E.
+  destruct (Hh E) as (c & q0 & -> & Hb).
+  pose proof (forall2_len _ _ _ _ _ Hgot) as Hl.
+  replace (length (g_got s)) with (length pre) by (symmetry; exact Hl). rewrite Hpub, Hb. rewrite nth_error_app2 by lia. rewrite Nat.sub_diag. reflexivity.
+Qed.
+
+(* the ring qb_rb_open creates *)
+Lemma open_wf : forall S nosem, 0 <= S -> S + RB_CHUNK_MARGIN + RB_SIZE_EXTRA + RB_PAGE_SIZE <= two32 ->
+  wf_ring (open_shared S nosem).
+Proof.
+  intros S nosem HS Hb. pose proof (rb_open_repr S nosem false HS Hb) as (H2 & H32 & Hr & _).
+  unfold wf_ring, open_shared, sem_ok; cbn [hW hwpt hrpt hsem]. unfold rb_open in *; cbn [rW rpt sem] in *.
+  repeat split; try lia. destruct nosem; cbn; lia.
+Qed.
